@@ -36,11 +36,15 @@ type WorldRun struct {
 	Sig     string
 }
 
-func ints(xs []int) []int {
-	if xs == nil {
-		return []int{}
+func wtJSON(wt [][]int) [][]int {
+	out := make([][]int, len(wt))
+	for i, xs := range wt {
+		out[i] = xs
+		if xs == nil {
+			out[i] = []int{}
+		}
 	}
-	return xs
+	return out
 }
 
 // Execute runs the whole behaviour on the real code.
@@ -95,8 +99,8 @@ func (r *WorldRun) Execute(logStmts bool) {
 	}
 	// ---- phase 2: the schedules, each a new decryption trigger (fresh identities) of the one eon ----
 	for sno, sc := range r.Scheds {
-		net.Begin(r.Plan.Ids, fmt.Sprintf("seed%d-run%d-s%d", r.Seed, r.Run, sno))
-		emit(sno, J{"k": "gnew", "s": sno, "wt": ints(sc.Wt), "tabs": net.Tables()})
+		net.Begin(r.Plan.Rounds, r.Plan.Ids(), fmt.Sprintf("seed%d-run%d-s%d", r.Seed, r.Run, sno))
+		emit(sno, J{"k": "gnew", "s": sno, "wt": wtJSON(sc.Wt), "tabs": net.Tables()})
 		step := func(a Action, drain bool) {
 			l := J{"k": "gstep", "s": sno, "a": a.A, "n": a.N, "m": a.M, "verdict": "-", "err": "", "missing": false, "drain": drain}
 			net.prod = nil
@@ -105,7 +109,7 @@ func (r *WorldRun) Execute(logStmts bool) {
 			pan := guard(90*time.Second, func() {
 				switch a.A {
 				case "trig":
-					errs = net.trigger(a.N)
+					errs = net.trigger(a.N, a.M.R)
 				case "dlv":
 					k := net.find(a.M, a.N)
 					if k < 0 {
@@ -160,7 +164,7 @@ func (r *WorldRun) Execute(logStmts bool) {
 				}
 			}
 		}
-		emit(sno, J{"k": "gend", "s": sno, "wt": ints(sc.Wt), "pending": len(net.inflight), "tabs": net.Tables(), "judge": judge})
+		emit(sno, J{"k": "gend", "s": sno, "wt": wtJSON(sc.Wt), "pending": len(net.inflight), "tabs": net.Tables(), "judge": judge})
 	}
 	if logStmts {
 		r.Stmts = map[string]bool{}
